@@ -135,7 +135,7 @@ O(s, f, den, dend, deg, lo, hi) ==
 NoDen == UNDEF
 
 \* 100 * (c - lo) / (hi - lo), 50 on a zero range
-Stoch(c, lo, hi) == IF hi = lo THEN RI(50) ELSE Norm(100 * (c - lo), hi - lo)
+Stoch(c, lo, hi) == IF hi = lo THEN RI(50) ELSE Pct(c - lo, hi - lo)
 
 RefStep(kind, p, s, in) ==
   CASE kind = "SMA" ->
@@ -231,7 +231,7 @@ RefStep(kind, p, s, in) ==
         LET w == Push(s.w, Cl(in), p.n + 1)
             prev == w[1]                       \* x_(t-n), or the first price while fewer exist
         IN O([w |-> w],
-             <<F("out", IF prev = 0 THEN UNDEF ELSE Norm(100 * (Cl(in) - prev), prev), "ratio",
+             <<F("out", IF prev = 0 THEN UNDEF ELSE Pct(Cl(in) - prev, prev), "ratio",
                  IF Cl(in) = prev THEN "exact" ELSE "cond")>>,
              RI(prev), "level", AllEq(w), RZero, RZero)
     [] kind = "ER" ->
